@@ -301,6 +301,86 @@ def structural(chk, shp):
                 chk.violation('structural/%s/%s' % ('struct' if kind == 's' else 'union', problem.split(',')[0].split(' ')[0]),
                               'shape %s on %s: descriptor has %s' % (td, t, problem),
                               files={'input.c': ('%s\n%s f(%s s) { return s; }\n' % (td, T, T)).encode()}, cmd='$CPROC_QBE -t %s input.c | grep ^type' % t)
+    # the same shapes as UNNAMED parameters of function definitions, each type seen there for the first time in its unit
+    src = []
+    for idx, (kind, sig) in enumerate(shp):
+        td, T = typedef(idx, kind, sig)
+        src.append('%s\nint st_un%d(long a, %s, int x) { return x + (int)a; }\n' % (td, idx, T))
+    unit = ''.join(src)
+    for t in TARGETS:
+        r = srv.compile(unit, target=t, cpu_s=30)
+        if r.status != 0:
+            chk.violation('structural/unit-rejected', 'unnamed-parameter unit rejected for %s: %s' % (t, r.err[:200]), files={'input.c': unit.encode()})
+            continue
+        m = ilparse.parse(r.out)
+        fn = {f.name: f for f in m.funcs}
+        for idx, (kind, sig) in enumerate(shp):
+            f = fn.get('$st_un%d' % idx)
+            n += 1
+            cls = [p[0] for p in f.params] if f else None
+            size, al, leaves = layout(kind, sig)
+            problem = None
+            if not cls or len(cls) != 3 or cls[0] != 'l' or cls[2] != 'w' or not cls[1].startswith(':'):
+                problem = 'parameter classes %r, expected [l, :aggregate, w]' % (cls,)
+            else:
+                gs, ga, gl = ilparse.type_layout(m, cls[1])
+                if gs != size or ga != al:
+                    problem = 'descriptor of the unnamed parameter has size %d alignment %d, C layout %d / %d' % (gs, ga, size, al)
+            if problem:
+                td, T = typedef(idx, kind, sig)
+                chk.violation('structural/unnamed-parameter/%s' % problem.split(' ')[0], 'shape %s on %s as an unnamed parameter: %s' % (td, t, problem),
+                              files={'input.c': ('%s\nint f(long a, %s, int x) { return x; }\n' % (td, T)).encode()}, cmd='$CPROC_QBE -t %s input.c | grep -E "^type|^function"' % t)
+    return n
+
+
+SPECIAL = [
+    ('fam-int', 'int n; int a[];'), ('fam-char-after-long', 'long l; char c; char d[];'), ('fam-struct-elems', 'short h; struct { char a; short b; } e[];'),
+    ('fam-only-after-char', 'char c; double d[];'),
+    ('array2d', 'float m[2][2];'), ('array3d', 'char c[2][3][2]; short t;'), ('array-of-struct-2d', 'struct { char a; int b; } p[2][3]; char z;'),
+    ('nested-union-array', 'union { double d[1][2]; long l; } u; float f;'), ('bitfield-then-array', 'int b : 5; char a[3];'),
+    ('bool-enum-ptr', '_Bool b; enum { SPQ } e; void *p; void (*f)(void);'), ('anonymous-members', 'char c; union { int i; float f; }; struct { short a, b; }; char z;'),
+    ('tail-padding', 'long l; char c;'), ('nested-tail-padding', 'struct { long l; char c; } in; char z;'), ('char-array-17', 'char c[17];'), ('three-floats-and-double', 'float a, b, c; double d;'),
+]
+
+
+def special_descriptors(chk):
+    """type descriptors of shapes outside the generated alphabet (flexible array members, multi-dimensional arrays, anonymous
+    members, ...): size and alignment of the descriptor against sizeof/_Alignof as gcc computes them (the host ABI equals the
+    natural-alignment layout of all three targets for these member types)."""
+    d = ilexec.workdir('c08s.')
+    n = 0
+    try:
+        prog = ['#include <stdio.h>\n']
+        for i, (name, body) in enumerate(SPECIAL):
+            prog.append('struct sp%d { %s };\n' % (i, body))
+        prog.append('int main(void) {\n' + ''.join('printf("%%zu %%zu\\n", sizeof(struct sp%d), _Alignof(struct sp%d));\n' % (i, i) for i in range(len(SPECIAL))) + 'return 0; }\n')
+        c = os.path.join(d, 'w.c')
+        open(c, 'w').write(''.join(prog))
+        ok, out = ilexec.cc([c], os.path.join(d, 'w'), sanitize=False)
+        if not ok:
+            raise RuntimeError('gcc rejects the special-shape unit: ' + out[-400:])
+        want = [tuple(map(int, l.split())) for l in ilexec.run(os.path.join(d, 'w'))[1].decode().split('\n') if l]
+    finally:
+        shutil.rmtree(d, ignore_errors=True)
+    srv = fs.server('fs')
+    for i, (name, body) in enumerate(SPECIAL):
+        unit = 'struct sp%d { %s };\nstruct sp%d sp_f%d(long a, struct sp%d s) { (void)a; return s; }\n' % (i, body, i, i, i)
+        for t in TARGETS:
+            n += 1
+            r = srv.compile(unit, target=t, cpu_s=30)
+            if r.status != 0:
+                chk.violation('structural/special/%s/rejected' % name, 'shape %s rejected on %s: %s' % (name, t, r.err[:200]), files={'input.c': unit.encode()})
+                continue
+            m = ilparse.parse(r.out)
+            f = [x for x in m.funcs if x.name == '$sp_f%d' % i]
+            ty = f[0].retty if f else None
+            if not ty or not ty.startswith(':'):
+                chk.violation('structural/special/%s/no-aggregate-type' % name, 'shape %s on %s: return type %r' % (name, t, ty), files={'input.c': unit.encode()})
+                continue
+            gs, ga, gl = ilparse.type_layout(m, ty)
+            if (gs, ga) != want[i]:
+                chk.violation('structural/special/%s/size-or-alignment' % name, 'struct { %s } on %s: descriptor has size %d alignment %d, sizeof/_Alignof are %d/%d' % (
+                    body, t, gs, ga, want[i][0], want[i][1]), files={'input.c': unit.encode()}, cmd='$CPROC_QBE -t %s input.c | grep ^type' % t)
     return n
 
 
@@ -441,6 +521,7 @@ def main(chk):
         report(name, verdict, info, srcs, True)
     nstruct = structural(chk, shp)
     nscalar = scalar_signatures(chk)
+    nstruct += special_descriptors(chk)
     cov = {
         'evaluations': nlines + nstruct + nscalar,
         'scalar_signature_checks': nscalar,
